@@ -966,6 +966,8 @@ pub enum WSel {
     /// every write index x kinds x {sticky, transient} x short sizes
     Sweep,
     One(WriterScript),
+    /// one script against the fmt-writer entry point
+    Fmt(WriterScript),
 }
 
 #[derive(Clone, Debug, Serialize, Deserialize)]
@@ -975,41 +977,44 @@ pub struct WriterCase {
     pub sel: WSel,
 }
 
-fn ser_to<W: std::io::Write>(val: &WVal, w: &mut W, o: SerOpts) -> Result<(), serde_saphyr::ser::Error> {
-    use serde_saphyr::*;
-    let so = o.to_real();
-    match val {
-        WVal::Json(v) => to_io_writer_with_options(w, v, so),
-        WVal::Cfg(v) => to_io_writer_with_options(w, v, so),
-        WVal::Nested(v) => to_io_writer_with_options(w, v, so),
-        WVal::En(v) => to_io_writer_with_options(w, v, so),
-        WVal::Shared(v) => {
-            let rcs: Vec<RcAnchor<String>> = v.iter().map(|s| RcAnchor::from(std::rc::Rc::new(s.clone()))).collect();
-            let mut g = Vec::new();
-            for (i, r) in rcs.iter().enumerate() {
-                g.push(r.clone());
-                if i == 0 {
-                    g.push(r.clone());
-                }
-            }
-            to_io_writer_with_options(w, &g, so)
-        }
-        WVal::Lit(s) => to_io_writer_with_options(w, &LitString(s.clone()), so),
-        WVal::Fold(s) => to_io_writer_with_options(w, &FoldString(s.clone()), so),
-        WVal::Commented(n, c) => to_io_writer_with_options(w, &Commented(*n, c.clone()), so),
-        WVal::Flow(v) => to_io_writer_with_options(w, &FlowSeq(v.clone()), so),
-        WVal::Rich(seed) => to_io_writer_with_options(w, &build_rich(seed), so),
+/// Where a value is serialized to: one generic walk over `WVal` serves every serializer entry point.
+trait Sink {
+    type Out;
+    fn put<T: Serialize>(self, v: &T, so: serde_saphyr::SerializerOptions) -> Self::Out;
+}
+
+struct IoSink<'a, W: std::io::Write>(&'a mut W);
+impl<W: std::io::Write> Sink for IoSink<'_, W> {
+    type Out = Result<(), serde_saphyr::ser::Error>;
+    fn put<T: Serialize>(self, v: &T, so: serde_saphyr::SerializerOptions) -> Self::Out {
+        serde_saphyr::to_io_writer_with_options(self.0, v, so)
     }
 }
 
-fn ser_ref(val: &WVal, o: SerOpts) -> Result<String, serde_saphyr::ser::Error> {
+struct FmtSink<'a, W: std::fmt::Write>(&'a mut W);
+impl<W: std::fmt::Write> Sink for FmtSink<'_, W> {
+    type Out = Result<(), serde_saphyr::ser::Error>;
+    fn put<T: Serialize>(self, v: &T, so: serde_saphyr::SerializerOptions) -> Self::Out {
+        serde_saphyr::to_fmt_writer_with_options(self.0, v, so)
+    }
+}
+
+struct StrSink;
+impl Sink for StrSink {
+    type Out = Result<String, serde_saphyr::ser::Error>;
+    fn put<T: Serialize>(self, v: &T, so: serde_saphyr::SerializerOptions) -> Self::Out {
+        serde_saphyr::to_string_with_options(v, so)
+    }
+}
+
+fn feed<K: Sink>(val: &WVal, k: K, o: SerOpts) -> K::Out {
     use serde_saphyr::*;
     let so = o.to_real();
     match val {
-        WVal::Json(v) => to_string_with_options(v, so),
-        WVal::Cfg(v) => to_string_with_options(v, so),
-        WVal::Nested(v) => to_string_with_options(v, so),
-        WVal::En(v) => to_string_with_options(v, so),
+        WVal::Json(v) => k.put(v, so),
+        WVal::Cfg(v) => k.put(v, so),
+        WVal::Nested(v) => k.put(v, so),
+        WVal::En(v) => k.put(v, so),
         WVal::Shared(v) => {
             let rcs: Vec<RcAnchor<String>> = v.iter().map(|s| RcAnchor::from(std::rc::Rc::new(s.clone()))).collect();
             let mut g = Vec::new();
@@ -1019,13 +1024,127 @@ fn ser_ref(val: &WVal, o: SerOpts) -> Result<String, serde_saphyr::ser::Error> {
                     g.push(r.clone());
                 }
             }
-            to_string_with_options(&g, so)
+            k.put(&g, so)
         }
-        WVal::Lit(s) => to_string_with_options(&LitString(s.clone()), so),
-        WVal::Fold(s) => to_string_with_options(&FoldString(s.clone()), so),
-        WVal::Commented(n, c) => to_string_with_options(&Commented(*n, c.clone()), so),
-        WVal::Flow(v) => to_string_with_options(&FlowSeq(v.clone()), so),
-        WVal::Rich(seed) => to_string_with_options(&build_rich(seed), so),
+        WVal::Lit(s) => k.put(&LitString(s.clone()), so),
+        WVal::Fold(s) => k.put(&FoldString(s.clone()), so),
+        WVal::Commented(n, c) => k.put(&Commented(*n, c.clone()), so),
+        WVal::Flow(v) => k.put(&FlowSeq(v.clone()), so),
+        WVal::Rich(seed) => k.put(&build_rich(seed), so),
+    }
+}
+
+fn ser_to<W: std::io::Write>(val: &WVal, w: &mut W, o: SerOpts) -> Result<(), serde_saphyr::ser::Error> {
+    feed(val, IoSink(w), o)
+}
+
+fn ser_ref(val: &WVal, o: SerOpts) -> Result<String, serde_saphyr::ser::Error> {
+    feed(val, StrSink, o)
+}
+
+/// `fmt::Write` over a SimWriter: one `write_str` is one scripted write; a refused write is `fmt::Error`.
+struct FmtAdapter(SimWriter);
+impl std::fmt::Write for FmtAdapter {
+    fn write_str(&mut self, s: &str) -> std::fmt::Result {
+        use std::io::Write as _;
+        match self.0.write(s.as_bytes()) {
+            Ok(n) if n == s.len() => Ok(()),
+            _ => Err(std::fmt::Error),
+        }
+    }
+}
+
+/// The fmt-writer entry point under every write index / byte position: an error comes back and what the
+/// writer accepted is a prefix of the fault-free text.
+fn sweep_fmt_writer(c: &WriterCase, text: &str, st: &mut Stats, out: &mut Vec<Viol>) {
+    let run = |s: &WriterScript| {
+        let w = SimWriter::new(s.clone(), (text.len() as u64 + 64) * 8);
+        let h = w.clone();
+        let mut a = FmtAdapter(w);
+        let r = guard(|| feed(&c.val, FmtSink(&mut a), c.opts));
+        (r, h)
+    };
+    let mk = |clause: &str, detail: String, s: &WriterScript| Viol {
+        property: "C10".into(),
+        clause: clause.into(),
+        detail,
+        case: Case::C10W(WriterCase {
+            val: c.val.clone(),
+            opts: c.opts,
+            sel: WSel::Fmt(s.clone()),
+        }),
+    };
+    let scripts: Vec<WriterScript> = match &c.sel {
+        WSel::Fmt(s) => vec![s.clone()],
+        WSel::One(_) => return,
+        WSel::Sweep => {
+            let (r, h) = run(&WriterScript::default());
+            st.evals += 1;
+            let n_writes = h.st.borrow().writes as usize;
+            if !matches!(r, Ok(Ok(()))) || h.st.borrow().accepted != text.as_bytes() {
+                out.push(mk(
+                    "writer-faultfree-differs",
+                    format!("to_fmt_writer wrote {:?}, to_string gives {text:?}", String::from_utf8_lossy(&h.st.borrow().accepted)),
+                    &WriterScript::default(),
+                ));
+                return;
+            }
+            let mut v = Vec::new();
+            for k in 0..=n_writes {
+                for sticky in [true, false] {
+                    v.push(WriterScript {
+                        fail_at_write: Some(k),
+                        sticky,
+                        ..Default::default()
+                    });
+                }
+            }
+            for b in 0..=text.len() {
+                v.push(WriterScript {
+                    fail_at_byte: Some(b),
+                    sticky: b % 2 == 0,
+                    ..Default::default()
+                });
+            }
+            v
+        }
+    };
+    for s in &scripts {
+        let (r, h) = run(s);
+        st.evals += 1;
+        let ws = h.st.borrow();
+        st.behaviours.insert(ws.trace_digest ^ 0x5555);
+        if !ws.fired {
+            st.bump("fmt_writer.no_fault_fired");
+            continue;
+        }
+        st.nontrivial.insert(ws.trace_digest ^ 0x5555);
+        st.bump("fired.fmt_write_refused");
+        match r {
+            Err(a) => out.push(mk("writer-abnormal", format!("to_fmt_writer: {a:?}"), s)),
+            Ok(Ok(())) => out.push(mk(
+                "writer-fault-swallowed",
+                format!("to_fmt_writer: a write was refused after {} bytes but serialization returned Ok", ws.fired_at_len),
+                s,
+            )),
+            Ok(Err(_)) => {}
+        }
+        // a write refused at byte position b never accepts part of that write, so the accepted text may
+        // end inside the refused piece only at its start: still a prefix
+        if !text.as_bytes().starts_with(&ws.accepted) {
+            out.push(mk(
+                "writer-not-a-prefix",
+                format!(
+                    "to_fmt_writer: writer accepted {:?}, not a prefix of {text:?} ({} bytes accepted after the refusal)",
+                    String::from_utf8_lossy(&ws.accepted),
+                    ws.bytes_after_fault
+                ),
+                s,
+            ));
+        }
+        if out.len() > 20 {
+            break;
+        }
     }
 }
 
@@ -1076,8 +1195,10 @@ pub fn exec_writer(c: &WriterCase, st: &mut Stats) -> Vec<Viol> {
         }
     }
     let text = reference.unwrap();
+    sweep_fmt_writer(c, &text, st, &mut out);
     let scripts: Vec<WriterScript> = match &c.sel {
         WSel::One(s) => vec![s.clone()],
+        WSel::Fmt(_) => vec![],
         WSel::Sweep => {
             let mut v = Vec::new();
             let kinds = [
